@@ -10,9 +10,13 @@ Local Open Scope Z_scope.
 (** Compact chains: runs [(n, first id, first time, time step)] of blocks with
     consecutive hash ids and evenly spaced times. *)
 Definition seg := (nat * N * Z * Z)%type.
+Fixpoint seg_from (n : nat) (id : N) (t dt : Z) : list blk :=
+  match n with
+  | O => []
+  | S n' => {| bh := id; bt := t |} :: seg_from n' (id + 1)%N (t + dt) dt
+  end.
 Definition seg_blocks (s : seg) : list blk :=
-  let '(n, id0, t0, dt) := s in
-  map (fun i => {| bh := id0 + N.of_nat i; bt := t0 + dt * Z.of_nat i |}) (seq 0 n).
+  let '(n, id0, t0, dt) := s in seg_from n id0 t0 dt.
 Definition expand (l : list seg) : list blk := flat_map seg_blocks l.
 Definition headers_of (l : list seg) : gmap N Z :=
   list_to_map (map (fun b => (bh b, bt b)) (expand l)).
@@ -36,10 +40,71 @@ Record iobs := {
   o_unmined : list N;                    (* unconfirmed records *)
 }.
 
+(** Observations are written by the driver as flat lists of integers (large
+    record literals are slow to elaborate):
+      [err; h; hash; time; chain_synced; np; (height, hash+1 | 0)*np; nm; (txid, height, hash)*nm; nu; txid*nu]
+    The empty list means "not observed after this event". *)
+Definition mk (h hash t : Z) : bmeta := {| m_height := h; m_hash := Z.to_N hash; m_time := t |}.
+Definition zbool (z : Z) : bool := negb (z =? 0).
+
+Fixpoint dec_probes (n : nat) (l : list Z) : option (list (Z * option N) * list Z) :=
+  match n with
+  | O => Some ([], l)
+  | S n' =>
+    match l with
+    | h :: v :: l' =>
+      match dec_probes n' l' with
+      | Some (ps, r) => Some ((h, if v =? 0 then None else Some (Z.to_N (v - 1))) :: ps, r)
+      | None => None
+      end
+    | _ => None
+    end
+  end.
+Fixpoint dec_mined (n : nat) (l : list Z) : option (list (N * Z * N) * list Z) :=
+  match n with
+  | O => Some ([], l)
+  | S n' =>
+    match l with
+    | t :: h :: b :: l' =>
+      match dec_mined n' l' with
+      | Some (ms, r) => Some ((Z.to_N t, h, Z.to_N b) :: ms, r)
+      | None => None
+      end
+    | _ => None
+    end
+  end.
+
+Inductive decoded := DNone | DBad | DObs (o : iobs).
+Definition decode_obs (l : list Z) : decoded :=
+  match l with
+  | [] => DNone
+  | e :: h :: hash :: t :: cs :: np :: l1 =>
+    match dec_probes (Z.to_nat np) l1 with
+    | Some (ps, nm :: l2) =>
+      match dec_mined (Z.to_nat nm) l2 with
+      | Some (ms, nu :: l3) =>
+        if (length l3 =? Z.to_nat nu)%nat then
+          DObs {| o_err := zbool e; o_synced := mk h hash t; o_chain_synced := zbool cs;
+                  o_probes := ps; o_mined := ms; o_unmined := map Z.to_N l3 |}
+        else DBad
+      | _ => DBad
+      end
+    | _ => DBad
+    end
+  | _ => DBad
+  end.
+
+(** Short forms used by the driver. *)
+Definition conn (h hash t : Z) : cop := CNtfn (NConnect (mk h hash t)).
+Definition disc (h hash t : Z) : cop := CNtfn (NDisconnect (mk h hash t)).
+Definition txm (t : Z) (cb : bool) (h hash tm : Z) : cop := CNtfn (NTx (Z.to_N t) cb (Some (mk h hash tm))).
+Definition txu (t : Z) : cop := CNtfn (NTx (Z.to_N t) false None).
+Definition sg (n id0 t0 dt : Z) : seg := (Z.to_nat n, Z.to_N id0, t0, dt).
+
 Record scase := {
   sc_init : bmeta;                       (* the new wallet's synced-to stamp (genesis) *)
   sc_headers : list seg;                 (* every block the backend ever had *)
-  sc_events : list (cop * option iobs);
+  sc_events : list (cop * list Z);
 }.
 
 Definition step (hdr : gmap N Z) (o : cop) (w : wallet) : result :=
@@ -67,7 +132,8 @@ Definition set_eqb {A} (eqb : A -> A -> bool) (a b : list A) : bool :=
   forallb (fun x => existsb (eqb x) b) a && forallb (fun x => existsb (eqb x) a) b.
 
 (** First difference, as a code (0 = agree):
-    1 error flag, 2 synced-to, 3 ChainSynced, 4 stored hashes, 5 confirmed records, 6 unconfirmed records. *)
+    1 error flag, 2 synced-to, 3 ChainSynced, 4 stored hashes, 5 confirmed records, 6 unconfirmed records;
+    9 = the observation does not decode. *)
 Definition obs_diff (e : bool) (w : wallet) (o : iobs) : nat :=
   if negb (Bool.eqb e (o_err o)) then 1%nat
   else if negb (bmeta_eqb (synced w) (o_synced o)) then 2%nat
@@ -79,14 +145,15 @@ Definition obs_diff (e : bool) (w : wallet) (o : iobs) : nat :=
 
 (** (event index, code) of the first event after which implementation and
     model differ. *)
-Fixpoint first_diff (hdr : gmap N Z) (i : nat) (evs : list (cop * option iobs)) (w : wallet) : option (nat * nat) :=
+Fixpoint first_diff (hdr : gmap N Z) (i : nat) (evs : list (cop * list Z)) (w : wallet) : option (nat * nat) :=
   match evs with
   | [] => None
   | (o, ob) :: rest =>
     let '(w', e) := step hdr o w in
-    match ob with
-    | None => first_diff hdr (S i) rest w'
-    | Some ob =>
+    match decode_obs ob with
+    | DNone => first_diff hdr (S i) rest w'
+    | DBad => Some (i, 9%nat)
+    | DObs ob =>
       match obs_diff e w' ob with
       | O => first_diff hdr (S i) rest w'
       | S c => Some (i, S c)
